@@ -9,28 +9,48 @@ fields("ErrorExtraction", registry="dict[role:Extractor]")
 LOGGING_FRAME = ["#LOG", "#OFFERS", "#CALLS", "#IO", "#NTOP", "field:_last_child"]
 LOGGING_EFFECT = [
                   ("positions-only-in-current-action", "only_changed('_last_child', curact())"),
-                  ("current-action-advances", "implies(curact() is not None, pos_ok(typed(curact(), 'Action')) and pos(typed(curact(), 'Action')) >= old(pos(typed(curact(), 'Action'))))"),
-                  ("channels-grow", "prefix_of(old(OFFERS), OFFERS) and prefix_of(old(CALLS), CALLS) and prefix_of(old(IO), IO)")]
+                  ("current-action-advances", "implies(curact() is not None, rep_ok(typed(curact(), 'Action')) and pos(typed(curact(), 'Action')) >= old(pos(typed(curact(), 'Action'))))"),
+]
 
 contract(E + "ErrorExtraction.get_fields_for_exception", props=["C03", "C07"], cycle="extract", decreases="1",
-         types={"logger": "Any", "exception": "Exc"}, returns="dict",
+         types={"logger": "Opt[role:ILogger]", "exception": "Exc"}, returns="dict",
+         ghosts={"R": "seqe", "PRE": "seq", "K": "cls", "CALLED": "bool", "F": "Any", "ARG": "Any", "RET": "Any"},
+         ghost_defaults={"R": "empty_log()", "CALLED": "False"},
+         after={"write_traceback#0": [("R", "R")],
+                "Extractor.__call__#0": [("PRE", "_done"), ("K", "klass"), ("CALLED", "True"), ("F", "box(self)"), ("ARG", "box(exception)"), ("RET", "box(result)")]},
+         after_raise={"Extractor.__call__#0": [("PRE", "_done"), ("K", "klass"), ("CALLED", "True"), ("F", "box(self)"), ("ARG", "box(exception)")]},
          requires=[("current-ok", "cur_ok()")],
-         modifies=LOGGING_FRAME, ghosts={"R": "seqe"},
+         modifies=LOGGING_FRAME,
+         loops={0: {"inv": [("no-earlier-class-registered", "none_in(_done, self.registry)"),
+                            ("nothing-happened-yet", "LOG == old(LOG) and CALLS == old(CALLS) and NTOP == old(NTOP)")],
+                    "modifies": []}},
          ensures=LOGGING_EFFECT + [
              ("only-reports-logged", "LOG == old(LOG) + R and all_reports(R)", ["C03"]),
              ("result-is-a-fresh-dict", "fresh(result)", ["C03"]),
-             ("result-is-extractor-output-or-empty",
-              "(LASTF == old(LASTF) and NTOP == old(NTOP) and dom(result) == setof()) or "
-              "(last(CALLS).tag == 'ret' and box(result) == last(CALLS).d and LASTARGS == [exception]) or "
-              "(dom(result) == setof() and len(R) > 0)", ["C03"])])
+             ("field-names", "'self' not in result and 'message_type' not in result and 'action_status' not in result and '__eliot_logger__' not in result and '__eliot_serializer__' not in result and forall(lambda k: implies(contains(dict_of(result), k), is_str(k)), 'val')"),
+             ("extractor-of-the-nearest-registered-class-in-the-MRO",
+              "implies(CALLED, prefix_of(PRE + [K], mro(clsof_(exception))) and none_in(PRE, self.registry) and contains(dict_of(self.registry), K) "
+              "and F == dget(self.registry, K) and ARG == box(exception))", ["C03"]),
+             ("no-extractor-no-fields", "implies(not CALLED, dom(result) == setof() and none_in(mro(clsof_(exception)), self.registry) and CALLS == old(CALLS))", ["C03"]),
+             ("fields-are-the-extractor-output-or-empty-if-it-raised",
+              "implies(CALLED, (dict_of(result) == dict_of(RET) and R == empty_log()) or (dom(result) == setof() and len(R) > 0))", ["C03"])])
 
 contract(T + "write_traceback", props=["C07", "C13", "C03"], cycle="extract", decreases="ite(_extract_fields, 2, 0)",
          types={"logger": "Opt[role:ILogger]", "exc_info": "Opt[tuple]", "_extract_fields": "bool"}, returns="none",
-         requires=[("current-ok", "cur_ok()")],
-         modifies=LOGGING_FRAME, ghosts={"R": "seqe"},
+         requires=[("current-ok", "cur_ok()"), ("exc-info-is-a-triple", "implies(exc_info is not None, len(seq(exc_info)) == 3)"),
+                   ("module-fact: TRACEBACK_MESSAGE.message_type", "TB().message_type == 'eliot:traceback'")],
+         modifies=LOGGING_FRAME + ["field:$uuid_str"], ghosts={"R": "seqe", "R1": "seqe"}, ghost_defaults={"R1": "empty_log()"},
+         after={"ErrorExtraction.get_fields_for_exception#0": [("R1", "R")], "log_message#0": [("R", "R1 + [E] + R")]},
          ensures=LOGGING_EFFECT + [
              ("one-traceback-then-reports", "LOG == old(LOG) + R and len(R) > 0 and all_reports(R)", ["C13"])])
 
 global_hint("eliot/_traceback.py:_traceback_no_io", "role:TracebackModule")
 contract("iface::TracebackModule.format_exception", params=["self", "typ", "exception", "tb"], returns="list[str]",
          notes="traceback.format_exception (the no-I/O copy): returns a list of str, never raises", modifies=[])
+
+# facts established by module initialisation code (trusted here, cross-checked natively by drivers/facts_check.py)
+from pyvc.spec import SPECFUNS
+specfun("TB", [], "lookup_global('eliot/_traceback.py', 'TRACEBACK_MESSAGE')")
+MODULE_FACTS = [
+    ("eliot/_traceback.py:TRACEBACK_MESSAGE", "TB().message_type == 'eliot:traceback'"),
+]
